@@ -530,6 +530,17 @@ class Ctx:
                 ln = self.len_sym(m.group(1))
                 add(ln - Poly.const(1) - Poly.sym(name))
                 add(Poly.sym(name))
+            m = re.match(r"^\(Iterator::next\(mut\(Iterator::enumerate\(<impl \[T\]>::(windows|chunks_exact)\((.*),(\d+)\)\)\)\) as Some\)\.0\.0$", name)
+            if m:
+                # k-th window / chunk of s: k + n <= len(s) (windows), k * n + n <= len(s) (chunks_exact); in both k < len(s)
+                ln = self.len_sym(m.group(2))
+                n_ = int(m.group(3))
+                if n_ >= 1:
+                    if m.group(1) == "windows":
+                        add(ln - Poly.const(n_) - Poly.sym(name))
+                    else:
+                        add(ln - Poly.const(n_) - Poly.sym(name).scale(n_))
+                    add(Poly.sym(name))
             if name.startswith(("(Iterator::position(", "(Iterator::rposition(", "Option::<T>::unwrap(Iterator::position(", "Option::<T>::unwrap(Iterator::rposition(",
                                 "Option::<T>::expect(Iterator::position(", "Option::<T>::expect(Iterator::rposition(")):
                 # structural: the index found in s[lo..hi] (any spelling of the sub-sequence) is < hi - lo and < len(s) - lo
